@@ -200,7 +200,7 @@ CLAIMS = {
              "targets are never compared with raw class labels and the +/-1 mapping is "
              "arithmetic on the encoded indices. Probability normalisation and monotonicity "
              "are runtime behaviour of sklearn mix-ins and are not decided."
-             " Which datafits make an estimator a classifier is decided by one subclass-aware isinstance test shared by fit and predict; no class-name test mentions a datafit that has subclasses.",
+             " Which datafits make an estimator a classifier is decided by one subclass-aware isinstance test shared by fit and predict; no class-name test mentions a datafit that has subclasses. `classes_` comes from the encoder fitted on the raw targets; prediction methods read `coef_[0]` only in the binary case; a hand-written exponential of a decision value is shifted by its row-wise maximum (or otherwise bounded above), library links excepted.",
         design_ref="DESIGN.md §3.3 R-OVR, §4 C12",
         note="Structural necessary conditions only.",
         technique="AST rules on _glm_fit (last-assignment and kind-of-value checks)",
